@@ -33,6 +33,7 @@ def run(ctx):
     ctx.rule("C19.7", "what a successful (re)load contains: every listed file of every configured directory (any entry that is not a directory, so an unreadable one fails the load), each zone file merged into the zone of its apex, the hosts files combined and merged last (shared with C12.5)")
     ctx.rule("C19.8", "the shared cache (which a reload does not replace) never receives configuration data: everything inserted into it is taken from an upstream reply (the forwarder's answers, the validated NameserverResponse), never from a merged / locally found record list")
     ctx.rule("C19.9", "the loader reads files through tokio::fs (awaits): no blocking std::fs call inside an async body of the server, so a slow file cannot stall the worker that answers queries")
+    ctx.rule("C19.10", "what counts as an invalid file is rejected by the parsers (the rejection rules of C11.1 for zone files and the error transitions of C14.3 for hosts files, decided here as well): an invalid file fails the load, and a failed load keeps the old configuration")
     ctx.decline("relative timing of SIGUSR1 and in-flight queries beyond the lock discipline")
 
     # ---------------------------------------------------------------- C19.1
@@ -151,6 +152,10 @@ def run(ctx):
     from . import C12
     C12.composition_rules(ctx, "C19.7", ctx.prog)
     cache_sources_rule(ctx, "C19.8")
+    from ..core import RuleAlias
+    from . import C11, C14
+    C11.run(RuleAlias(ctx, {"C11.1": "C19.10"}))
+    C14.run(RuleAlias(ctx, {"C14.3": "C19.10"}))
     # C19.9
     blocking = []
     for fn in ctx.prog.fns.values():
